@@ -648,6 +648,7 @@ def sc_rawmsg(cx):
 
     for _ in range(r.randint(2, 5)):
         c = r.choice(["ptr-own", "ptr-forward", "ptr-self", "ptr-chain", "opts", "dupcookie-badlast", "dupcookie-goodlast",
+                      "emptycookie", "emptycookie-first",
                       "escaped-dot", "escaped-label", "nonprint", "trailing", "liecount", "uncompressed", "label64"])
         flags = 0x8180
         msg = None
@@ -669,6 +670,10 @@ def sc_rawmsg(cx):
             msg = raw_message(mid, flags, labels, 1, [arec()], [opt([(10, bytes(range(16))), (10, b"\x01\x02\x03")])])
         elif c == "dupcookie-goodlast":
             msg = raw_message(mid, flags, labels, 1, [arec()], [opt([(10, b"\x01\x02\x03"), (10, bytes(range(16)))])])
+        elif c == "emptycookie":
+            msg = raw_message(mid, flags, labels, 1, [arec()], [opt([(10, b"")])])
+        elif c == "emptycookie-first":
+            msg = raw_message(mid, flags, labels, 1, [arec()], [opt([(10, b""), (10, bytes(range(16)))])])
         elif c == "escaped-dot":      # first two labels fused into one label that contains a dot
             if len(labels) >= 3:
                 fused = [labels[0] + b"." + labels[1]] + labels[2:]
